@@ -1,4 +1,7 @@
 import LhasaV.Props.C12
 open LhasaV.Props.C12
-#print axioms short_input_not_ok
+#print axioms accept_sound
+#print axioms bad_header_not_returned
+#print axioms accept_has_name
+#print axioms read_consumes
 #print axioms short_input_rejected
